@@ -125,7 +125,10 @@ func (s *SenderInterceptor) BindRemoteStream(
 			sequenceNumber: header.SequenceNumber,
 			ecn:            0, // ECN is not supported (yet).
 		}
-		s.packetChan <- p
+		select {
+		case s.packetChan <- p:
+		case <-s.close:
+		}
 
 		return i, attr, nil
 	})
@@ -135,6 +138,8 @@ func (s *SenderInterceptor) BindRemoteStream(
 func (s *SenderInterceptor) Close() error {
 	s.log.Trace("close")
 	defer s.wg.Wait()
+	s.lock.Lock()
+	defer s.lock.Unlock()
 
 	if !s.isClosed() {
 		close(s.close)
